@@ -321,7 +321,13 @@ def gen_cut(rng, knobs=None):
     else:
         if rng.random() < 0.5:
             prog.append(['deliver', rng.choice(['c', 's']), rng.choice([1, 5, 40, None])])
-        prog.append(['close', src])
+        if rng.random() < 0.3:
+            # close() is called by a request handler of `src` while it is handling a request ("while a handler is running")
+            prog.append(['rr', 's' if src == 'c' else 'c', spec(rng, big=False), {'mode': rng.choice(['immediate', 'later']), 'resp': spec(rng, big=False),
+                                                                    'close_in_handler': True}])
+            prog.append(['pump'])
+        else:
+            prog.append(['close', src])
     prog.append(['settle'])
     prog.append(['advance', 450])
     prog.append(['settle'])
